@@ -57,6 +57,15 @@ def notifyDel (cont : Bool) (q : Q) : List Var → StateTbl → StateTbl
     else if cont then notifyDel cont q vs t
     else t
 
+/-- **current configuration of the deviation flag.**  Since the `fix:` commit a7dbc5e of /repo ("unsubscribing a trigger
+removes its queue from every watched entity even when two watched names share an entity") `State.notify_del`
+`continue`s; the correspondence check (`harness/run_C09.py`, `DEL_CONTINUES`) certifies that this value matches the code. -/
+def delContinuesNow : Bool := true
+
+/-- the value before that commit (`return` at the first name whose entity no longer lists the queue); kept so that the
+`_regress_` theorems can speak about the pre-fix table code -/
+def delContinuesPreFix : Bool := false
+
 /-- the entities named by the valid names of a list -/
 def entsOf (names : List Var) : List Ent := (names.filter validVar).map entOf
 
